@@ -216,7 +216,11 @@ func c15Docx(c *c15Case) (string, map[int]bool, error) {
 				continue
 			}
 			body.WriteString(c15DocxTable(el))
-			body.WriteString(`<w:p/>`)
+			// consecutive tables are consecutive w:tbl elements; any other table is followed by the
+			// (empty) paragraph a word processor puts after it
+			if n+1 >= len(c.Els) || c.Els[n+1].T != "table" {
+				body.WriteString(`<w:p/>`)
+			}
 		}
 		only[n] = true
 	}
@@ -437,53 +441,62 @@ func c15XlsxExpressible(el *c15El) bool {
 
 func c15Xlsx(c *c15Case) (string, map[int]bool, error) {
 	only := map[int]bool{}
-	var el *c15El
+	var tables []*c15El
 	for n := range c.Els {
-		if c.Els[n].T == "table" && c15XlsxExpressible(&c.Els[n]) && el == nil {
-			el = &c.Els[n]
+		if c.Els[n].T == "table" && c15XlsxExpressible(&c.Els[n]) {
+			tables = append(tables, &c.Els[n])
 			only[n] = true
 		}
 	}
-	if el == nil {
+	if len(tables) == 0 {
 		return "", nil, nil
 	}
-	var rows, merges strings.Builder
-	for r := 0; r < el.Nr; r++ {
-		fmt.Fprintf(&rows, `<row r="%d">`, r+1)
-		for cc := 0; cc < el.Nc; cc++ {
-			s := el.Src[r][cc]
-			if s.Covered || s.Raw == "" {
-				continue
-			}
-			fmt.Fprintf(&rows, `<c r="%s%d" t="inlineStr"><is><t xml:space="preserve">%s</t></is></c>`, c15ColName(cc), r+1, c15X(s.Raw))
-			if s.Rs > 1 || s.Cs > 1 {
-				fmt.Fprintf(&merges, `<mergeCell ref="%s%d:%s%d"/>`, c15ColName(cc), r+1, c15ColName(cc+s.Cs-1), r+s.Rs)
-			}
-		}
-		rows.WriteString(`</row>`)
-	}
-	mc := ""
-	if merges.Len() > 0 {
-		mc = `<mergeCells count="1">` + merges.String() + `</mergeCells>`
-	}
 	ns := `xmlns="http://schemas.openxmlformats.org/spreadsheetml/2006/main" xmlns:r="http://schemas.openxmlformats.org/officeDocument/2006/relationships"`
+	var sheetFiles []c15File
+	var overrides, sheetRefs, rels strings.Builder
+	// every table is a sheet of its own: the workbook renders as one Markdown table per sheet
+	for k, el := range tables {
+		var rows, merges strings.Builder
+		for r := 0; r < el.Nr; r++ {
+			fmt.Fprintf(&rows, `<row r="%d">`, r+1)
+			for cc := 0; cc < el.Nc; cc++ {
+				s := el.Src[r][cc]
+				if s.Covered || s.Raw == "" {
+					continue
+				}
+				fmt.Fprintf(&rows, `<c r="%s%d" t="inlineStr"><is><t xml:space="preserve">%s</t></is></c>`, c15ColName(cc), r+1, c15X(s.Raw))
+				if s.Rs > 1 || s.Cs > 1 {
+					fmt.Fprintf(&merges, `<mergeCell ref="%s%d:%s%d"/>`, c15ColName(cc), r+1, c15ColName(cc+s.Cs-1), r+s.Rs)
+				}
+			}
+			rows.WriteString(`</row>`)
+		}
+		mc := ""
+		if merges.Len() > 0 {
+			mc = `<mergeCells count="1">` + merges.String() + `</mergeCells>`
+		}
+		name := fmt.Sprintf("xl/worksheets/sheet%d.xml", k+1)
+		sheetFiles = append(sheetFiles, c15File{name, c15XMLHead + `<worksheet ` + ns + `><dimension ref="A1:` + fmt.Sprintf("%s%d", c15ColName(el.Nc-1), el.Nr) + `"/><sheetData>` +
+			rows.String() + `</sheetData>` + mc + `</worksheet>`})
+		fmt.Fprintf(&overrides, `<Override PartName="/%s" ContentType="application/vnd.openxmlformats-officedocument.spreadsheetml.worksheet+xml"/>`, name)
+		fmt.Fprintf(&sheetRefs, `<sheet name="S%d" sheetId="%d" r:id="rId%d"/>`, k+1, k+1, k+1)
+		fmt.Fprintf(&rels, `<Relationship Id="rId%d" Type="http://schemas.openxmlformats.org/officeDocument/2006/relationships/worksheet" Target="worksheets/sheet%d.xml"/>`, k+1, k+1)
+	}
 	files := []c15File{
 		{"[Content_Types].xml", c15XMLHead + `<Types xmlns="http://schemas.openxmlformats.org/package/2006/content-types">` +
 			`<Default Extension="rels" ContentType="application/vnd.openxmlformats-package.relationships+xml"/>` +
 			`<Default Extension="xml" ContentType="application/xml"/>` +
 			`<Override PartName="/xl/workbook.xml" ContentType="application/vnd.openxmlformats-officedocument.spreadsheetml.sheet.main+xml"/>` +
-			`<Override PartName="/xl/worksheets/sheet1.xml" ContentType="application/vnd.openxmlformats-officedocument.spreadsheetml.worksheet+xml"/>` +
+			overrides.String() +
 			`<Override PartName="/docProps/core.xml" ContentType="application/vnd.openxmlformats-package.core-properties+xml"/></Types>`},
 		{"_rels/.rels", c15XMLHead + `<Relationships xmlns="http://schemas.openxmlformats.org/package/2006/relationships">` +
 			`<Relationship Id="rId1" Type="http://schemas.openxmlformats.org/officeDocument/2006/relationships/officeDocument" Target="xl/workbook.xml"/>` +
 			`<Relationship Id="rId2" Type="http://schemas.openxmlformats.org/package/2006/relationships/metadata/core-properties" Target="docProps/core.xml"/></Relationships>`},
-		{"xl/workbook.xml", c15XMLHead + `<workbook ` + ns + `><sheets><sheet name="S1" sheetId="1" r:id="rId1"/></sheets></workbook>`},
-		{"xl/_rels/workbook.xml.rels", c15XMLHead + `<Relationships xmlns="http://schemas.openxmlformats.org/package/2006/relationships">` +
-			`<Relationship Id="rId1" Type="http://schemas.openxmlformats.org/officeDocument/2006/relationships/worksheet" Target="worksheets/sheet1.xml"/></Relationships>`},
-		{"xl/worksheets/sheet1.xml", c15XMLHead + `<worksheet ` + ns + `><dimension ref="A1:` + fmt.Sprintf("%s%d", c15ColName(el.Nc-1), el.Nr) + `"/><sheetData>` +
-			rows.String() + `</sheetData>` + mc + `</worksheet>`},
-		{"docProps/core.xml", c15CoreProps(c)},
+		{"xl/workbook.xml", c15XMLHead + `<workbook ` + ns + `><sheets>` + sheetRefs.String() + `</sheets></workbook>`},
+		{"xl/_rels/workbook.xml.rels", c15XMLHead + `<Relationships xmlns="http://schemas.openxmlformats.org/package/2006/relationships">` + rels.String() + `</Relationships>`},
 	}
+	files = append(files, sheetFiles...)
+	files = append(files, c15File{"docProps/core.xml", c15CoreProps(c)})
 	p, err := c15WriteZip(".xlsx", files)
 	return p, only, err
 }
@@ -501,9 +514,13 @@ func c15PptxParas(raw string) string {
 	return b.String()
 }
 
-func c15Pptx(c *c15Case) (string, map[int]bool, error) {
+// c15Pptx: perSlide = false puts every table on the one slide (several graphic frames on a
+// slide); perSlide = true gives every table after the first a slide of its own.
+func c15Pptx(c *c15Case, perSlide bool) (string, map[int]bool, error) {
 	only := map[int]bool{}
-	var shapes strings.Builder
+	slides := []*strings.Builder{{}}
+	shapes := slides[0]
+	ntables := 0
 	id := 2
 	for n := range c.Els {
 		el := &c.Els[n]
@@ -517,21 +534,26 @@ func c15Pptx(c *c15Case) (string, map[int]bool, error) {
 				}
 				fmt.Fprintf(&ps, `<a:p><a:pPr lvl="%d">%s</a:pPr><a:r><a:rPr lang="en-US"/><a:t>%s</a:t></a:r></a:p>`, it.D, bu, c15X(it.W))
 			}
-			fmt.Fprintf(&shapes, `<p:sp><p:nvSpPr><p:cNvPr id="%d" name="Body %d"/><p:cNvSpPr/><p:nvPr><p:ph type="body" idx="1"/></p:nvPr></p:nvSpPr><p:spPr/>`+
+			fmt.Fprintf(shapes, `<p:sp><p:nvSpPr><p:cNvPr id="%d" name="Body %d"/><p:cNvSpPr/><p:nvPr><p:ph type="body" idx="1"/></p:nvPr></p:nvSpPr><p:spPr/>`+
 				`<p:txBody><a:bodyPr/><a:lstStyle/>%s</p:txBody></p:sp>`, id, id, ps.String())
 			id++
 		case "para":
-			fmt.Fprintf(&shapes, `<p:sp><p:nvSpPr><p:cNvPr id="%d" name="Text %d"/><p:cNvSpPr txBox="1"/><p:nvPr/></p:nvSpPr><p:spPr/>`+
+			fmt.Fprintf(shapes, `<p:sp><p:nvSpPr><p:cNvPr id="%d" name="Text %d"/><p:cNvSpPr txBox="1"/><p:nvPr/></p:nvSpPr><p:spPr/>`+
 				`<p:txBody><a:bodyPr/><a:lstStyle/><a:p><a:pPr><a:buNone/></a:pPr><a:r><a:rPr lang="en-US"/><a:t>%s</a:t></a:r></a:p></p:txBody></p:sp>`, id, id, c15X(el.W))
 			id++
 		case "table":
 			if c15Degenerate(el) {
 				continue
 			}
-			var t strings.Builder
 			if el.Hm != "none" && el.Hm != "first" && el.Hm != "" {
 				continue // PresentationML marks at most the first row (firstRow)
 			}
+			ntables++
+			if perSlide && ntables > 1 {
+				slides = append(slides, &strings.Builder{})
+			}
+			shapes = slides[len(slides)-1]
+			var t strings.Builder
 			if c15Marked(el, 0) {
 				t.WriteString(`<a:tbl><a:tblPr firstRow="1"/><a:tblGrid>`)
 			} else {
@@ -572,7 +594,7 @@ func c15Pptx(c *c15Case) (string, map[int]bool, error) {
 				t.WriteString(`</a:tr>`)
 			}
 			t.WriteString(`</a:tbl>`)
-			fmt.Fprintf(&shapes, `<p:graphicFrame><p:nvGraphicFramePr><p:cNvPr id="%d" name="Table %d"/><p:cNvGraphicFramePr/><p:nvPr/></p:nvGraphicFramePr>`+
+			fmt.Fprintf(shapes, `<p:graphicFrame><p:nvGraphicFramePr><p:cNvPr id="%d" name="Table %d"/><p:cNvGraphicFramePr/><p:nvPr/></p:nvGraphicFramePr>`+
 				`<p:xfrm><a:off x="0" y="0"/><a:ext cx="3000000" cy="1000000"/></p:xfrm><a:graphic><a:graphicData uri="http://schemas.openxmlformats.org/drawingml/2006/table">%s</a:graphicData></a:graphic></p:graphicFrame>`, id, id, t.String())
 			id++
 		default:
@@ -585,26 +607,36 @@ func c15Pptx(c *c15Case) (string, map[int]bool, error) {
 	}
 	ns := `xmlns:a="http://schemas.openxmlformats.org/drawingml/2006/main" xmlns:r="http://schemas.openxmlformats.org/officeDocument/2006/relationships" ` +
 		`xmlns:p="http://schemas.openxmlformats.org/presentationml/2006/main"`
-	slide := c15XMLHead + `<p:sld ` + ns + `><p:cSld><p:spTree><p:nvGrpSpPr><p:cNvPr id="1" name=""/><p:cNvGrpSpPr/><p:nvPr/></p:nvGrpSpPr><p:grpSpPr/>` +
-		`<p:sp><p:nvSpPr><p:cNvPr id="90" name="Title"/><p:cNvSpPr/><p:nvPr><p:ph type="title"/></p:nvPr></p:nvSpPr><p:spPr/>` +
-		`<p:txBody><a:bodyPr/><a:lstStyle/><a:p><a:r><a:rPr lang="en-US"/><a:t>Slide</a:t></a:r></a:p></p:txBody></p:sp>` +
-		shapes.String() + `</p:spTree></p:cSld></p:sld>`
+	mkSlide := func(n int, body string) string {
+		return c15XMLHead + `<p:sld ` + ns + `><p:cSld><p:spTree><p:nvGrpSpPr><p:cNvPr id="1" name=""/><p:cNvGrpSpPr/><p:nvPr/></p:nvGrpSpPr><p:grpSpPr/>` +
+			`<p:sp><p:nvSpPr><p:cNvPr id="90" name="Title"/><p:cNvSpPr/><p:nvPr><p:ph type="title"/></p:nvPr></p:nvSpPr><p:spPr/>` +
+			fmt.Sprintf(`<p:txBody><a:bodyPr/><a:lstStyle/><a:p><a:r><a:rPr lang="en-US"/><a:t>Slide%d</a:t></a:r></a:p></p:txBody></p:sp>`, n) +
+			body + `</p:spTree></p:cSld></p:sld>`
+	}
+	var overrides, ids, rels strings.Builder
+	var slideFiles []c15File
+	for n, sb := range slides {
+		name := fmt.Sprintf("ppt/slides/slide%d.xml", n+1)
+		slideFiles = append(slideFiles, c15File{name, mkSlide(n+1, sb.String())})
+		fmt.Fprintf(&overrides, `<Override PartName="/%s" ContentType="application/vnd.openxmlformats-officedocument.presentationml.slide+xml"/>`, name)
+		fmt.Fprintf(&ids, `<p:sldId id="%d" r:id="rId%d"/>`, 256+n, n+1)
+		fmt.Fprintf(&rels, `<Relationship Id="rId%d" Type="http://schemas.openxmlformats.org/officeDocument/2006/relationships/slide" Target="slides/slide%d.xml"/>`, n+1, n+1)
+	}
 	files := []c15File{
 		{"[Content_Types].xml", c15XMLHead + `<Types xmlns="http://schemas.openxmlformats.org/package/2006/content-types">` +
 			`<Default Extension="rels" ContentType="application/vnd.openxmlformats-package.relationships+xml"/>` +
 			`<Default Extension="xml" ContentType="application/xml"/>` +
 			`<Override PartName="/ppt/presentation.xml" ContentType="application/vnd.openxmlformats-officedocument.presentationml.presentation.main+xml"/>` +
-			`<Override PartName="/ppt/slides/slide1.xml" ContentType="application/vnd.openxmlformats-officedocument.presentationml.slide+xml"/>` +
+			overrides.String() +
 			`<Override PartName="/docProps/core.xml" ContentType="application/vnd.openxmlformats-package.core-properties+xml"/></Types>`},
 		{"_rels/.rels", c15XMLHead + `<Relationships xmlns="http://schemas.openxmlformats.org/package/2006/relationships">` +
 			`<Relationship Id="rId1" Type="http://schemas.openxmlformats.org/officeDocument/2006/relationships/officeDocument" Target="ppt/presentation.xml"/>` +
 			`<Relationship Id="rId2" Type="http://schemas.openxmlformats.org/package/2006/relationships/metadata/core-properties" Target="docProps/core.xml"/></Relationships>`},
-		{"ppt/presentation.xml", c15XMLHead + `<p:presentation ` + ns + `><p:sldIdLst><p:sldId id="256" r:id="rId1"/></p:sldIdLst><p:sldSz cx="9144000" cy="6858000"/></p:presentation>`},
-		{"ppt/_rels/presentation.xml.rels", c15XMLHead + `<Relationships xmlns="http://schemas.openxmlformats.org/package/2006/relationships">` +
-			`<Relationship Id="rId1" Type="http://schemas.openxmlformats.org/officeDocument/2006/relationships/slide" Target="slides/slide1.xml"/></Relationships>`},
-		{"ppt/slides/slide1.xml", slide},
-		{"docProps/core.xml", c15CoreProps(c)},
+		{"ppt/presentation.xml", c15XMLHead + `<p:presentation ` + ns + `><p:sldIdLst>` + ids.String() + `</p:sldIdLst><p:sldSz cx="9144000" cy="6858000"/></p:presentation>`},
+		{"ppt/_rels/presentation.xml.rels", c15XMLHead + `<Relationships xmlns="http://schemas.openxmlformats.org/package/2006/relationships">` + rels.String() + `</Relationships>`},
 	}
+	files = append(files, slideFiles...)
+	files = append(files, c15File{"docProps/core.xml", c15CoreProps(c)})
 	p, err := c15WriteZip(".pptx", files)
 	return p, only, err
 }
@@ -612,6 +644,20 @@ func c15Pptx(c *c15Case) (string, map[int]bool, error) {
 // ------------------------------------------------------------- dispatch
 
 func c15RunContainerWriter(c *c15Case, w string) []c15Out {
+	ntab := 0
+	for _, el := range c.Els {
+		if el.T == "table" {
+			ntab++
+		}
+	}
+	if w == "pptx" && ntab >= 2 {
+		// several tables on one slide, and on consecutive slides
+		return append(c15RunContainerVariant(c, w, false), c15RunContainerVariant(c, w, true)...)
+	}
+	return c15RunContainerVariant(c, w, false)
+}
+
+func c15RunContainerVariant(c *c15Case, w string, perSlide bool) []c15Out {
 	var path string
 	var only map[int]bool
 	var err error
@@ -623,7 +669,7 @@ func c15RunContainerWriter(c *c15Case, w string) []c15Out {
 	case "xlsx":
 		path, only, err = c15Xlsx(c)
 	case "pptx":
-		path, only, err = c15Pptx(c)
+		path, only, err = c15Pptx(c, perSlide)
 	default:
 		return nil
 	}
